@@ -82,6 +82,7 @@ where
 {
     fn run(self: Rc<Self>, state: State<U, E>) -> SResult<U, E> {
         let smap = state.get_smap();
+        let bindings_before = smap.len();
         let dstore = state.get_dstore();
 
         let uwalk = smap.walk(&self.u);
@@ -96,7 +97,7 @@ where
                 // the constraint. The constraint implies that min(u) <= max(v).
                 let vmax = vdomain.max();
                 let umin = udomain.min();
-                Ok(state
+                state
                     .process_domain(
                         &uwalk,
                         Rc::new(udomain.copy_before(|u| vmax < *u).ok_or(())?),
@@ -105,7 +106,7 @@ where
                         &vwalk,
                         Rc::new(vdomain.drop_before(|v| umin <= *v).ok_or(())?),
                     )?
-                    .with_constraint(self))
+                    .keep_constraint(self, bindings_before)
             }
             (Some(udomain), None) if vwalk.is_number() => {
                 // The variable `u` has an assigned domain, and variable `v` has been bound
